@@ -392,6 +392,28 @@ pub fn c02_node_case(ctx: &Ctx, c: &C02Node) -> Vec<Viol> {
         ctx.class("c02-node:flooded-frame");
         payloads.push((from, 99, frame));
     }
+    // a newcomer (default ciphers) dials node 0 now: node 0 parses the ping in, and builds its reply in, the long-lived
+    // receive buffer that just held decrypted payload - nothing of that may travel along with the handshake
+    {
+        let mut cfg = base_config();
+        cfg.mode = Mode::Switch;
+        cfg.auto_claim = false;
+        let late = sim.add_node(&cfg, false);
+        let a0 = sim.addr(0);
+        // make sure the last thing node 0 decrypted is a long frame
+        if let Some((peer, _, _)) = connected.iter().find(|(i, j, _)| *i == 0 || *j == 0).map(|(i, j, p)| (if *i == 0 { *j } else { *i }, 0, *p)) {
+            let body: Vec<u8> = (0..700).map(|k| (k as u8).wrapping_mul(151).wrapping_add((c.seed >> 3) as u8)).collect();
+            let frame = eth_frame([0xc2, 0xa1, 0xb7, 0x5e, 0x93, 0x01], [0xc2, 0x11, 0x22, 0x33, 0x44, 0x55], None, &body);
+            sim.put_payload(peer, frame.clone());
+            sim.settle();
+            for n in 0..3 {
+                sim.take_iface(n);
+            }
+            payloads.push((peer, 0, frame));
+        }
+        sim.connect(late, a0);
+        sim.settle();
+    }
     sim.run(2);
     // wire search: no 8-byte window of a payload on encrypted connections
     for d in &sim.wire_log[handshake_end..] {
@@ -400,7 +422,8 @@ pub fn c02_node_case(ctx: &Ctx, c: &C02Node) -> Vec<Viol> {
             (Some(s), Some(t)) => connected.iter().any(|(i, j, p)| *p && ((*i == s && *j == t) || (*i == t && *j == s))),
             _ => false,
         };
-        if plain_conn || d.data.first() == Some(&0xff) {
+        // handshake datagrams are searched as well: they are built in buffers that held payload before
+        if plain_conn {
             continue;
         }
         for (from, to, f) in &payloads {
@@ -420,7 +443,8 @@ pub fn c02_node_case(ctx: &Ctx, c: &C02Node) -> Vec<Viol> {
         }
         let (s, t) = (sim.index.get(&d.src).copied(), sim.index.get(&d.dst).copied());
         let plain_conn = match (s, t) {
-            (Some(s), Some(t)) => plain_of(c.algos[s]) && plain_of(c.algos[t]),
+            // (index 3 is the newcomer, which never enables plain)
+            (Some(s), Some(t)) if s < 3 && t < 3 => plain_of(c.algos[s]) && plain_of(c.algos[t]),
             _ => false,
         };
         if plain_conn {
@@ -440,7 +464,8 @@ pub fn c02_node_case(ctx: &Ctx, c: &C02Node) -> Vec<Viol> {
         }
     }
     // tampered copies of the last data datagram must not reach any interface
-    if let Some(d) = sim.wire_log.iter().rev().find(|d| d.data.len() > 60 && d.data.first() != Some(&0xff)).cloned() {
+    let old3 = |a: &SocketAddr| sim.index.get(a).map(|i| *i < 3).unwrap_or(false);
+    if let Some(d) = sim.wire_log.iter().rev().find(|d| d.data.len() > 60 && d.data.first() != Some(&0xff) && old3(&d.src) && old3(&d.dst)).cloned() {
         let enc_pair = match (sim.index.get(&d.src), sim.index.get(&d.dst)) {
             (Some(s), Some(t)) => !(plain_of(c.algos[*s]) && plain_of(c.algos[*t])),
             _ => false,
